@@ -74,6 +74,80 @@ func vInflateEvents(evs []string) []string {
 	return append(evs, extra...)
 }
 
+// vInflateStream: the same oracle for a byte stream that is FED to the decoder: every complete frame whose content is a
+// compressed call is located with the generic decoder and its payload inflated with the standard library / msgpackzip
+// directly; "<payload>:<plain>" or "<payload>:!" when the library refuses it.
+func vInflateStream(stream []byte) string {
+	var out []string
+	h := &codec.MsgpackHandle{WriteExt: true, RawToString: true}
+	for len(stream) > 0 && len(out) < 64 {
+		dec := codec.NewDecoderBytes(stream, h)
+		var l int
+		if dec.Decode(&l) != nil || l <= 0 || l > len(stream) {
+			break
+		}
+		used := dec.NumBytesRead()
+		if used+l > len(stream) {
+			break
+		}
+		content := stream[used : used+l]
+		stream = stream[used+l:]
+		var arr []interface{}
+		if codec.NewDecoderBytes(content, h).Decode(&arr) != nil || len(arr) < 5 {
+			continue
+		}
+		t, ok := arr[0].(int64)
+		if !ok || t != 4 {
+			continue
+		}
+		var payload []byte
+		switch pv := arr[4].(type) {
+		case []byte:
+			payload = pv
+		case string: // a str where bin is expected is accepted as the byte string it spells
+			payload = []byte(pv)
+		}
+		if len(payload) == 0 {
+			continue
+		}
+		var ctype int64 = -1
+		switch c := arr[2].(type) {
+		case int64:
+			ctype = c
+		case uint64:
+			ctype = int64(c)
+		}
+		var plain []byte
+		okInfl := false
+		if ctype == 1 {
+			if r, err := gzip.NewReader(bytes.NewReader(payload)); err == nil {
+				if p, err := io.ReadAll(r); err == nil {
+					plain, okInfl = p, true
+				}
+			}
+		} else if ctype == 2 {
+			if p, err := msgpackzip.Inflate(payload); err == nil {
+				plain, okInfl = p, true
+			}
+		} else {
+			continue
+		}
+		if okInfl {
+			pl := vHexS(string(plain))
+			if pl == "" {
+				pl = "-"
+			}
+			out = append(out, vHex(payload)+":"+pl)
+		} else {
+			out = append(out, vHex(payload)+":!")
+		}
+	}
+	if len(out) == 0 {
+		return "-"
+	}
+	return strings.Join(out, ",")
+}
+
 func vScenarioCases(t *testing.T, withDecode bool) {
 	cases := vReadCases(t)
 	out := vOpenOut(t)
@@ -88,7 +162,7 @@ func vScenarioCases(t *testing.T, withDecode bool) {
 					runtime.ReadMemStats(&m0)
 					outs, consumed, maxAsk := vRunDecode(c)
 					runtime.ReadMemStats(&m1)
-					out.printf("dec %s outs=%s consumed=%s maxask=%d alloc=%d", c.id, strings.Join(outs, "|"), strings.Join(consumed, ","), maxAsk, m1.TotalAlloc-m0.TotalAlloc)
+					out.printf("dec %s outs=%s consumed=%s maxask=%d alloc=%d inflated=%s", c.id, strings.Join(outs, "|"), strings.Join(consumed, ","), maxAsk, m1.TotalAlloc-m0.TotalAlloc, vInflateStream(vUnhex(c.get("stream"))))
 				})
 			}
 		case "cc":
